@@ -122,7 +122,7 @@ def check_ids(kind, ids, res):
         return None
 
     def sets():
-        for width in (30, 72):
+        for width in (30, 72, 100, 250):
             f = S()
             bulk.wtset(f, 101, ids, max_length=width)
             txt = f.getvalue()
@@ -158,6 +158,41 @@ def check_ids(kind, ids, res):
             return "two SPOINT card groups in one file: read %s, wrote %s" % (got[:14], (ids + ids2)[:14])
         return None
 
+    def forms():
+        """ids handed over as ndarrays of every integer dtype that holds them (and dofs as list / ndarray) write the same
+        text as the plain list"""
+        dofs = [(123456, 0, 123, 5, 246)[i % 5] for i in range(len(ids))]
+        writers = {
+            "wtspoints": lambda x: (lambda f: (bulk.wtspoints(f, x), f.getvalue())[1])(S()),
+            "wtcsuper": lambda x: (lambda f: (bulk.wtcsuper(f, 77, x), f.getvalue())[1])(S()),
+            "wtset": lambda x: (lambda f: (bulk.wtset(f, 101, x), f.getvalue())[1])(S()),
+            "wtextrn(dof list)": lambda x: (lambda f: (bulk.wtextrn(f, x, dofs), f.getvalue())[1])(S()),
+            "wtextrn(dof array)": lambda x: (lambda f: (bulk.wtextrn(f, x, np.array(dofs)), f.getvalue())[1])(S()),
+        }
+        for wn, w in writers.items():
+            base = w(list(ids))
+            for dt in (np.uint8, np.int16, np.uint16, np.int32, np.uint32, np.int64, np.uint64):
+                if min(ids) < np.iinfo(dt).min or max(ids) > np.iinfo(dt).max:
+                    continue
+                arr = np.array(ids, dtype=dt)
+                snap = arr.copy()
+                try:
+                    txt = w(arr)
+                except TypeError as e:
+                    if "unsupported field type" in str(e):
+                        res.exit("card writer refuses this numpy scalar type loudly (unsupported field type)")
+                        continue
+                    return "%s raised %r for ids given as a %s array" % (wn, e, np.dtype(dt).name)
+                except Exception as e:  # noqa
+                    return "%s raised %r for ids given as a %s array" % (wn, e, np.dtype(dt).name)
+                if txt != base:
+                    return "%s writes different text for ids given as a %s array than for the same list:\n%s\nvs\n%s" % (wn, np.dtype(dt).name, txt[:200], base[:200])
+                if not np.array_equal(arr, snap):
+                    return "%s modified the id array" % wn
+        return None
+
+    if len(ids) <= 12:
+        attempt("id container forms", forms)
     attempt("several cards in one file", multi)
     attempt("wtspoints/rdspoints", spoints)
     attempt("wtcsuper/rdcsupers", csuper)
